@@ -61,8 +61,12 @@ def dataset(rng, d=None, n_classes=None, per_class=None, sep=2.0, bits=GRID_BITS
     y = np.array(y)
     perm = rng.permutation(len(y))
     X, y = X[perm], y[perm]
-    # distinct points, full-rank covariance
-    if len(np.unique(X, axis=0)) == len(X) and np.linalg.matrix_rank(np.cov(X.T)) == d:
+    # distinct points, full-rank covariance - of the whole sample AND within the classes (a mixing matrix with a nearly
+    # vanishing row makes one feature constant inside every class once it is rounded to the grid: found by the thorough
+    # tier at VERIF_SEED=1, where RCA legitimately returned NaN on such a set)
+    Xw = X - np.array([X[y == c].mean(axis=0) for c in range(n_classes)])[y]
+    if (len(np.unique(X, axis=0)) == len(X) and np.linalg.matrix_rank(np.cov(X.T)) == d
+            and (len(X) - n_classes < d or np.linalg.matrix_rank(Xw) == d)):
       return X, y
 
 
